@@ -54,7 +54,38 @@ Fixpoint flat (e : pexpr) : result (list prov) :=
   | XSet es => flats flat es
   | _ => match decode e with OK p => OK [p] | Err c => Err c end
   end.
-Definition parse (es : list pexpr) : result (list prov) := flats flat es.
+(* kessoku.Bind[I](kessoku.Struct[T]()): the interface is supplied by whatever supplies the struct (graph.go, second pass:
+   fnProviderMap[I] = fnProviderMap[T]). In the flat list this is the struct's source provider with I added to the result
+   group that holds T - as if the Bind had been written around that provider. (A source that is itself a field of another
+   expanded struct has no entry of its own in the list: the binding is then left on the struct provider, where Gen ignores
+   it - a shape the correspondence does not produce.) *)
+Definition has_type (t : N) (g : list N) : bool := existsb (N.eqb t) g.
+Definition struct_extras (p : prov) : list N := if isstruct p then match provides p with (_ :: extras) :: _ => extras | _ => [] end else [].
+Definition struct_type (p : prov) : N := match requires p with t :: _ => t | [] => 0%N end.
+Definition add_to_group (t : N) (extras : list N) (p : prov) : prov :=
+  set_provides p (map (fun g => if has_type t g then g ++ extras else g) (provides p)).
+(* the first provider function that provides t receives the extras *)
+Fixpoint give (t : N) (extras : list N) (l : list prov) : option (list prov) :=
+  match l with
+  | [] => None
+  | p :: r => if negb (isstruct p) && existsb (has_type t) (provides p) then Some (add_to_group t extras p :: r)
+              else option_map (cons p) (give t extras r)
+  end.
+Definition strip (p : prov) : prov := if isstruct p then set_provides p [[struct_type p]] else p.
+Fixpoint attach (todo : list prov) (l : list prov) : list prov :=
+  match todo with
+  | [] => l
+  | s :: r => match struct_extras s with
+              | [] => attach r l
+              | extras => match give (struct_type s) extras l with
+                          | Some l' => attach r (map (fun q => if isstruct q && N.eqb (struct_type q) (struct_type s) then strip q else q) l')
+                          | None => attach r l
+                          end
+              end
+  end.
+Definition parse_flat (es : list pexpr) : result (list prov) := flats flat es.
+Definition parse (es : list pexpr) : result (list prov) :=
+  match parse_flat es with OK l => OK (attach l l) | Err c => Err c end.
 
 (* ------------------------------------------------------------------ what the wrappers do, and only that *)
 Lemma decode_async_flag e p : decode e = OK p -> decode (XAsync e) = OK (set_async p).
@@ -108,10 +139,12 @@ Proof.
 Qed.
 
 (* a Set - inline or a variable, at any depth - stands for its contents in its place *)
-Theorem set_is_grouping a es b : parse (a ++ [XSet es] ++ b) = parse (a ++ es ++ b).
+Lemma set_is_grouping_flat a es b : parse_flat (a ++ [XSet es] ++ b) = parse_flat (a ++ es ++ b).
 Proof.
-  unfold parse. rewrite !flats_app. f_equal. f_equal. simpl. apply cat_nil_r.
+  unfold parse_flat. rewrite !flats_app. f_equal. f_equal. simpl. apply cat_nil_r.
 Qed.
+Theorem set_is_grouping a es b : parse (a ++ [XSet es] ++ b) = parse (a ++ es ++ b).
+Proof. unfold parse. rewrite set_is_grouping_flat. reflexivity. Qed.
 Corollary set_of_everything es : parse [XSet es] = parse es.
 Proof. pose proof (set_is_grouping [] es []) as H. simpl in H. rewrite app_nil_r in H. exact H. Qed.
 
@@ -149,8 +182,49 @@ Proof.
     + injection Hl as <-. constructor.
     + apply cat_ok_inv in Hl. destruct Hl as (a & b & Ha & Hb & ->). apply Forall2_app; [apply Hx; exact Ha|apply IH; exact Hb].
 Qed.
-Theorem parse_leaves es l : parse es = OK l -> Forall2 (fun x p => decode x = OK p) (leaves_l es) l.
+Theorem parse_flat_leaves es l : parse_flat es = OK l -> Forall2 (fun x p => decode x = OK p) (leaves_l es) l.
 Proof. intro H. apply (flat_leaves (XSet es) l). exact H. Qed.
+
+(* attaching the interfaces bound to Struct expansions changes result groups only: the list keeps its length, every
+   provider its requirements, marks, kind and fields *)
+Definition same_but_provides (p q : prov) : Prop :=
+  requires q = requires p /\ fallible q = fallible p /\ async q = async p /\ isstruct q = isstruct p /\ sfields q = sfields p /\
+  isfield q = isfield p /\ fname q = fname p.
+Lemma sbp_refl p : same_but_provides p p. Proof. repeat split. Qed.
+Lemma sbp_trans p q r : same_but_provides p q -> same_but_provides q r -> same_but_provides p r.
+Proof. unfold same_but_provides. intros (A1 & A2 & A3 & A4 & A5 & A6 & A7) (B1 & B2 & B3 & B4 & B5 & B6 & B7). repeat split; congruence. Qed.
+Lemma sbp_set_provides p g : same_but_provides p (set_provides p g). Proof. repeat split. Qed.
+Lemma sbp_strip p : same_but_provides p (strip p). Proof. unfold strip. destruct (isstruct p); [apply sbp_set_provides|apply sbp_refl]. Qed.
+Lemma give_shape t ex : forall l l', give t ex l = Some l' -> Forall2 same_but_provides l l'.
+Proof.
+  induction l as [|p r IH]; intros l' H; simpl in H; [discriminate|].
+  destruct (negb (isstruct p) && existsb (has_type t) (provides p)).
+  - injection H as <-. constructor; [apply sbp_set_provides|]. clear. induction r; constructor; auto using sbp_refl.
+  - destruct (give t ex r) as [r'|] eqn:G; [|discriminate]. injection H as <-. constructor; [apply sbp_refl|apply IH; reflexivity].
+Qed.
+Lemma Forall2_sbp_refl l : Forall2 same_but_provides l l.
+Proof. induction l; constructor; auto using sbp_refl. Qed.
+Lemma Forall2_sbp_trans a b c : Forall2 same_but_provides a b -> Forall2 same_but_provides b c -> Forall2 same_but_provides a c.
+Proof.
+  intro H. revert c. induction H as [|x y a b Hxy Hab IH]; intros c Hc; inversion Hc; subst; constructor; eauto using sbp_trans.
+Qed.
+Lemma Forall2_sbp_map (f : prov -> prov) l : (forall q, same_but_provides q (f q)) -> Forall2 same_but_provides l (map f l).
+Proof. intro Hf. induction l; simpl; constructor; auto. Qed.
+Theorem attach_shape : forall todo l, Forall2 same_but_provides l (attach todo l).
+Proof.
+  induction todo as [|s r IH]; intro l; simpl; [apply Forall2_sbp_refl|].
+  destruct (struct_extras s) as [|e es]; [apply IH|].
+  destruct (give (struct_type s) (e :: es) l) as [l'|] eqn:G; [|apply IH].
+  eapply Forall2_sbp_trans; [apply (give_shape _ _ _ _ G)|].
+  eapply Forall2_sbp_trans; [|apply IH].
+  apply Forall2_sbp_map. intro q. destruct (isstruct q && N.eqb (struct_type q) (struct_type s)); [apply sbp_strip|apply sbp_refl].
+Qed.
+Theorem parse_shape es l : parse es = OK l -> exists l0, parse_flat es = OK l0 /\ Forall2 same_but_provides l0 l /\
+  Forall2 (fun x p => decode x = OK p) (leaves_l es) l0.
+Proof.
+  unfold parse. destruct (parse_flat es) as [l0|c] eqn:P; [|discriminate]. intro H. injection H as <-.
+  exists l0. split; auto. split; [apply attach_shape|apply parse_flat_leaves; exact P].
+Qed.
 End Parse.
 
 (* ------------------------------------------------------------------ the correspondence's entry point *)
@@ -176,4 +250,11 @@ Example decode_example :
   parse (impl_of [(1, 7)]%N) 99%N (fields_tbl [(5%N, [(1, 6)]%N)])
         [XSet [XAsync (XBind 7%N (XProvide [2]%N [1; 99]%N)); XSet [XValue 2%N]]; XStruct 5%N] =
   OK [mkfn [2]%N [[1; 7]]%N true true; mkfn [] [[2]]%N false false; mkstruct 5%N [(1, 6)]%N].
+Proof. vm_compute. reflexivity. Qed.
+
+(* Bind over a Struct expansion: the interface joins the struct's source; a second supplier of the interface is then a
+   duplicate like any other *)
+Example bind_struct_example :
+  parse (impl_of [(5, 7)]%N) 99%N (fields_tbl [(5%N, [(1, 6)]%N)]) [XProvide [] [3; 5]%N; XBind 7%N (XStruct 5%N)] =
+  OK [mkfn [] [[3]; [5; 7]]%N false false; mkstruct 5%N [(1, 6)]%N].
 Proof. vm_compute. reflexivity. Qed.
